@@ -44,6 +44,11 @@ DIRECTED = [
     {"layout": "two_services", "n_ops": 4, "schema_mode": "imported", "n_faults": 2},
     {"layout": "two_bindings", "n_ops": 3, "schema_mode": "inline", "header": 1, "header_after_body": 0},
     {"layout": "one", "n_ops": 1, "binding_style": "document", "op_style": "rpc", "n_faults": 0},
+    {"layout": "one", "n_ops": 1, "binding_style": "document", "op_style": None, "header": 1, "header_same_message": 0,
+     "extra_headers": 2},
+    {"layout": "one", "n_ops": 2, "binding_style": "rpc", "op_style": None, "header": 0, "extra_headers": 2, "out_header": 1},
+    {"layout": "one", "n_ops": 1, "binding_style": "document", "op_style": None, "header": 1, "header_same_message": 1,
+     "extra_headers": 1, "doc_two_parts": 1, "header_after_body": 1},
 ]
 
 
